@@ -127,8 +127,42 @@ func (f *Frame) execCall(st *State, x *ssa.Call) Value {
 		vc.havocAll(st, "call to "+key+" (no contract) in "+f.fn.Name())
 		return fresh()
 	}
+	// call through a function value: if the value was loaded from a struct field the
+	// call is recorded in a ghost log (ncalls / callarg spec functions)
 	vc.havocAll(st, "call through function value in "+f.fn.Name())
+	if key := funcFieldKey(cc.Value); key != "" {
+		B := vc.B
+		nk := "ghost:ncalls:" + key
+		vc.heapSet(st, nk, B.Store(vc.heapGet(st, nk), B.Int(0), B.Add(B.Select(vc.heapGet(st, nk), B.Int(0)), B.Int(1))))
+		for i, a := range cc.Args {
+			ak := fmt.Sprintf("ghost:arg%d:%s", i+1, key)
+			switch v := f.lookup(st, a).(type) {
+			case VT:
+				if v.T.sort == SInt {
+					vc.heapSet(st, ak, B.Store(vc.heapGet(st, ak), B.Int(0), v.T))
+				}
+			case VPtr:
+				if v.Cell == nil {
+					vc.heapSet(st, ak, B.Store(vc.heapGet(st, ak), B.Int(0), v.Addr))
+				}
+			}
+		}
+	}
 	return fresh()
+}
+
+// funcFieldKey: the called function value was loaded from struct field T.f.
+func funcFieldKey(v ssa.Value) string {
+	u, ok := v.(*ssa.UnOp)
+	if !ok || u.Op != token.MUL {
+		return ""
+	}
+	fa, ok := u.X.(*ssa.FieldAddr)
+	if !ok {
+		return ""
+	}
+	pt := fa.X.Type().Underlying().(*types.Pointer).Elem()
+	return fieldKey(pt, fa.Field)
 }
 
 func (f *Frame) externalCall(st *State, x *ssa.Call, callee *ssa.Function, ext *externalSpec, args []Value) Value {
@@ -216,7 +250,7 @@ func (f *Frame) inlineCall(st *State, x *ssa.Call, callee *ssa.Function, c *Cont
 		return vc.freshValue(f.prefix+x.Name(), x.Type()), true
 	}
 	// continue the caller in the callee's exit state
-	st.pc, st.heap, st.epoch = rst.pc, rst.heap, rst.epoch
+	st.pc, st.heap, st.epoch, st.fidx = rst.pc, rst.heap, rst.epoch, rst.fidx
 	for k, v := range rst.cells {
 		st.cells[k] = v
 	}
@@ -285,9 +319,16 @@ func (f *Frame) contractCall(st *State, x *ssa.Call, c *Contract, callee *ssa.Fu
 	if results.Len() == 1 {
 		ctx.names["result"] = CV{rvals[0], results.At(0).Type()}
 	}
+	for _, g := range c.Ghosts {
+		// ghost results are existential witnesses: fresh symbols constrained by the postconditions
+		ctx.names[g.Name] = CV{VT{B.Fresh(fmt.Sprintf("%s%s_%s.ghost_%s", f.prefix, x.Name(), name, g.Name), SInt)}, nil}
+	}
 	ctx.st = st
 	ctx.old = pre
 	for _, cl := range c.Ensures {
+		if isUnverified(cl) {
+			continue
+		}
 		g, err := ctx.evalBoolSafe(cl.E)
 		if err != nil {
 			vc.note("postcondition of %s cannot be evaluated at call site: %v", c.Key, err)
@@ -469,26 +510,37 @@ func (f *Frame) execAppend(st *State, x *ssa.Call) Value {
 	res := VSlice{rp, newLen, rc}
 	if es == 1 {
 		M := vc.heapGet(st, "M")
-		M2 := B.Fresh(f.prefix+x.Name()+".M", SArrII)
 		k := B.BVar("ap", SInt)
-		// result bytes: [0,len) old contents, [len,len+n) the appended bytes; everything else unchanged
 		inOld := B.And(B.Le(rp, k), B.Lt(k, B.Add(rp, s.Len)))
-		inNew := B.And(B.Le(B.Add(rp, s.Len), k), B.Lt(k, B.Add(rp, newLen)))
-		val := B.Ite(inNew, B.Select(M, B.Add(srcPtr, B.Sub(k, B.Add(rp, s.Len)))),
-			B.Ite(inOld, B.Select(M, B.Add(s.Ptr, B.Sub(k, rp))), B.Select(M, k)))
-		if n.IsConst() && n.ival.IsInt64() && n.ival.Int64() <= 32 {
-			// small constant appends: explicit stores, no quantifier on the new bytes
-			cnt := n.ival.Int64()
-			Mi := M
-			// copy of the old prefix only happens when reallocating; express with a quantified M1
-			M1 := B.Fresh(f.prefix+x.Name()+".Mc", SArrII)
-			vc.fact(B.Forall([]*Term{k}, B.Eq(B.Select(M1, k), B.Ite(B.And(B.Not(inPlace), inOld), B.Select(M, B.Add(s.Ptr, B.Sub(k, rp))), B.Select(M, k)))))
-			Mi = B.Ite(inPlace, M, M1)
-			for i := int64(0); i < cnt; i++ {
-				Mi = B.Store(Mi, B.Add(rp, B.Add(s.Len, B.Int(i))), B.Select(M, B.Add(srcPtr, B.Int(i))))
+		// a reallocating append first copies the old prefix into the new array
+		M1 := B.Fresh(f.prefix+x.Name()+".Mc", SArrII)
+		vc.fact(B.Forall([]*Term{k}, B.Eq(B.Select(M1, k), B.Ite(B.And(B.Not(inPlace), inOld), B.Select(M, B.Add(s.Ptr, B.Sub(k, rp))), B.Select(M, k)))))
+		Mbase := B.Ite(inPlace, M, M1)
+		// number of appended bytes: constants (and ite-trees of constants) get explicit stores
+		var build func(n *Term) *Term
+		build = func(n *Term) *Term {
+			if n.IsConst() && n.ival.IsInt64() && n.ival.Int64() <= 32 {
+				Mi := Mbase
+				for i := int64(0); i < n.ival.Int64(); i++ {
+					Mi = B.Store(Mi, B.Add(rp, B.Add(s.Len, B.Int(i))), B.Select(M, B.Add(srcPtr, B.Int(i))))
+				}
+				return Mi
 			}
+			if n.op == "ite" && iteConst(n) {
+				a, b2 := build(n.args[1]), build(n.args[2])
+				if a != nil && b2 != nil {
+					return B.Ite(n.args[0], a, b2)
+				}
+			}
+			return nil
+		}
+		if Mi := build(n); Mi != nil {
 			vc.heapSet(st, "M", Mi)
 		} else {
+			M2 := B.Fresh(f.prefix+x.Name()+".M", SArrII)
+			inNew := B.And(B.Le(B.Add(rp, s.Len), k), B.Lt(k, B.Add(rp, newLen)))
+			val := B.Ite(inNew, B.Select(M, B.Add(srcPtr, B.Sub(k, B.Add(rp, s.Len)))),
+				B.Ite(inOld, B.Select(M, B.Add(s.Ptr, B.Sub(k, rp))), B.Select(M, k)))
 			vc.fact(B.Forall([]*Term{k}, B.Eq(B.Select(M2, k), val)))
 			vc.heapSet(st, "M", M2)
 		}
